@@ -1,6 +1,7 @@
 package props
 
 import (
+	"bytes"
 	"encoding/binary"
 	"fmt"
 	"hash/fnv"
@@ -9,6 +10,8 @@ import (
 	"os"
 	"sort"
 	"strconv"
+	"strings"
+	"sync"
 	"testing"
 
 	"github.com/tobgu/qframe"
@@ -405,5 +408,104 @@ func TestC01Blocks(t *testing.T) {
 	}
 	evC01.CaseHash(true, 0x424c4f43, func() string {
 		return fmt.Sprintf("block sizes: %d operations x %v rows, a family of 4 frames fingerprinted before and after each (%d runs)", len(ops), sizes, runs)
+	}, "block-sizes")
+}
+
+// TestC11Blocks (built with -race like all of C11): big frames, where an implementation may split one call over
+// goroutines of its own. Every operation runs alone (the detector then watches the call's internal concurrency) and
+// four times at once on frames sharing storage; results must equal the solo result; an invalid aggregation among valid
+// ones must still be reported, wherever it stands.
+func TestC11Blocks(t *testing.T) {
+	sizes := []int{16384, 16391, 20003}
+	if tier() == "thorough" {
+		sizes = append(sizes, 32769, 65537)
+	}
+	wsum := func(xs []int) int {
+		s := 0
+		for i, x := range xs {
+			s += (i + 1) * x
+		}
+		return s
+	}
+	runs := 0
+	for _, n := range sizes {
+		_, frames, _ := blockFrames(n, blockSeed())
+		rev := frames[1]
+		sl := rev.Slice(3, n-5)
+		ops := []struct {
+			name string
+			run  func(qf qframe.QFrame) string
+		}{
+			{"Aggregate(sum,max,count,user)", func(qf qframe.QFrame) string {
+				return multiset(qf.GroupBy(groupby.Columns("i2")).Aggregate(qframe.Aggregation{Fn: "sum", Column: "i1"}, qframe.Aggregation{Fn: "max", Column: "f1"},
+					qframe.Aggregation{Fn: "count", Column: "s1", As: "n"}, qframe.Aggregation{Fn: wsum, Column: "id", As: "w"}))
+			}},
+			{"Aggregate(invalid first)", func(qf qframe.QFrame) string {
+				r := qf.GroupBy(groupby.Columns("i2")).Aggregate(qframe.Aggregation{Fn: "nosuchfn", Column: "i1"}, qframe.Aggregation{Fn: "max", Column: "f1"}, qframe.Aggregation{Fn: wsum, Column: "id", As: "w"})
+				return fmt.Sprint(r.Err != nil, r.Len())
+			}},
+			{"Aggregate(invalid in the middle)", func(qf qframe.QFrame) string {
+				r := qf.GroupBy(groupby.Columns("e1", "b1")).Aggregate(qframe.Aggregation{Fn: "sum", Column: "i1"}, qframe.Aggregation{Fn: "sum", Column: "s1", As: "bad"}, qframe.Aggregation{Fn: "min", Column: "f2"})
+				return fmt.Sprint(r.Err != nil, r.Len())
+			}},
+			{"Apply fn2 + fn1", func(qf qframe.QFrame) string {
+				return fmt.Sprint(quickSnap(qf.Apply(qframe.Instruction{Fn: hx.Int2, DstCol: "n1", SrcCol1: "i1", SrcCol2: "i2"}, qframe.Instruction{Fn: hx.FloatToStr, DstCol: "n2", SrcCol1: "f1"})))
+			}},
+			{"Eval", func(qf qframe.QFrame) string {
+				return fmt.Sprint(quickSnap(qf.Eval("n1", qframe.Expr("+", qframe.Expr("str", types.ColumnName("f1")), types.ColumnName("s1")))))
+			}},
+			{"Filter", func(qf qframe.QFrame) string {
+				return fmt.Sprint(quickSnap(qf.Filter(qframe.Or(qframe.Filter{Column: "s1", Comparator: "ilike", Arg: "%S1%"}, qframe.Not(qframe.Filter{Column: "i1", Comparator: "in", Arg: []int{2, -1, 0}})))))
+			}},
+			{"Sort", func(qf qframe.QFrame) string {
+				return fmt.Sprint(quickSnap(qf.Sort(qframe.Order{Column: "e1"}, qframe.Order{Column: "f1", Reverse: true}, qframe.Order{Column: "id"})))
+			}},
+			{"Distinct", func(qf qframe.QFrame) string {
+				return multiset(qf.Distinct(groupby.Columns("i1", "b1")).Select("i1", "b1"))
+			}},
+			{"ToJSON+ToCSV", func(qf qframe.QFrame) string {
+				var a, b bytes.Buffer
+				_ = qf.ToJSON(&a)
+				_ = qf.ToCSV(&b)
+				h := fnv.New64a()
+				_, _ = h.Write(a.Bytes())
+				_, _ = h.Write(b.Bytes())
+				return fmt.Sprint(h.Sum64())
+			}},
+		}
+		for _, op := range ops {
+			solo := op.run(rev)
+			soloSl := op.run(sl)
+			if strings.HasPrefix(op.name, "Aggregate(invalid") && !strings.HasPrefix(solo, "true") {
+				t.Fatalf("%s on %d rows: an invalid aggregation was not reported (Err set, Len: %s)", op.name, n, solo)
+			}
+			var wg sync.WaitGroup
+			res := make([]string, 4)
+			for g := 0; g < 4; g++ {
+				wg.Add(1)
+				go func(g int) {
+					defer wg.Done()
+					if g%2 == 0 {
+						res[g] = op.run(rev)
+					} else {
+						res[g] = op.run(sl)
+					}
+				}(g)
+			}
+			wg.Wait()
+			for g := range res {
+				want := solo
+				if g%2 == 1 {
+					want = soloSl
+				}
+				if res[g] != want {
+					t.Fatalf("%s on a frame of %d rows gave another result when run four times at once", op.name, n)
+				}
+			}
+			runs++
+		}
+	}
+	evC11.CaseHash(true, 0x424c4f43, func() string {
+		return fmt.Sprintf("block sizes: 9 operations x %v rows, solo and four at once on frames sharing storage (%d runs, race detector on)", sizes, runs)
 	}, "block-sizes")
 }
